@@ -22,6 +22,8 @@ From Coq Require Import ZArith List Bool Lia.
 From CSS Require Import Gen.Prelude Gen.Compositions Gen.QuotientParentShift
   Count.CompositionsSpec Count.Terms Count.Constructors Count.ConstructorsUnionProduct
   Count.ConstructorsComplement Count.ConstructorsQuotient Count.ConstructorsDerived Count.ConstructorsDict.
+From CSS Require Import Count.TermsPoly Count.TermsPolyOrder Count.TermsPolyDiv Count.ConstructorsConv
+  Count.ConstructorsQuotientParams Count.ConstructorsSteps Count.ConstructorsStepsQuotient.
 From CSS Require Import Gen.ConstructorParamMap Gen.UnionParamMap Gen.QuotientParamMap Count.GenBridgeParamMap.
 From CSS Require Import Gen.PathDictInitial Gen.PathDictCompose Gen.PathDictInvert Gen.PathDictDuplicates Count.GenBridgePathDict.
 Import ListNotations.
@@ -81,8 +83,10 @@ Qed.
    Running Rule._ensure_level for sizes 0..N with the Quotient constructor of child idx
    raises nothing and level m holds exactly the number of objects of size m of child idx.
    Hypotheses: >= 2 children, the contract Vanish, counts are non-negative, the product
-   rule is genuine at every size, and the siblings have objects of their minimum sizes
-   (product of those numbers <> 0: otherwise the code divides by zero). *)
+   rule is genuine at the sizes that are READ (level n reads the parent at n + _parent_shift:
+   sizes 0 .. N + _parent_shift; nothing is assumed about larger sizes), and the siblings have
+   objects of their minimum sizes (product of those numbers <> 0: otherwise the code divides
+   by zero). *)
 Theorem C09_quotient_parameter_free : forall fs ppm cs idx TP tabs N,
   (idx < length cs)%nat -> (2 <= length cs)%nat -> length tabs = length cs ->
   Forall const_nil fs -> ppm [] = Ok [] ->
@@ -90,7 +94,7 @@ Theorem C09_quotient_parameter_free : forall fs ppm cs idx TP tabs N,
   Vanish tabs (quotient_min_sizes cs) (quotient_max_sizes cs) ->
   Forall (fun tab : Z -> terms => forall m, nonneg (tab m)) tabs ->
   (forall m, nokeys (TP m)) ->
-  (forall m, product_genuine fs tabs (TP m) m) ->
+  (forall m, 0 <= m <= N + quotient_parent_shift cs (Z.of_nat idx) -> product_genuine fs tabs (TP m) m) ->
   hprod (remove_at idx tabs) (remove_at idx (quotient_min_sizes cs)) <> 0 ->
   0 <= N ->
   exists tl : list terms,
@@ -102,10 +106,276 @@ Proof.
   intros. eapply quotient_nopar_correct; eauto.
 Qed.
 
-(* NOT proved: Quotient with parameters (`C09_quotient_params`).  The model divides the
-   polynomials exactly (poly_div); what is missing is (1) the identity a_n = b_n * c for
-   tables with keys (the parameter-carrying version of quotient_level) and (2) that
-   sympy.div computes the exact quotient — the latter is trusted in any case. *)
+(* ------------------------------------------------------------ quotient WITH parameters *)
+(* Term tables as sparse polynomials in the parameter variables (Quotient._terms_to_poly): the table
+   t means the finitely supported function p |-> tget t p; ++ is addition, pmul multiplication
+   (exponent tuples added), exact_quotient p d q says q * d = p.
+
+   THE DIVISION STEP.  Quotient._b calls sympy.div(a_poly, c_poly, domain="ZZ") and asserts that
+   the remainder is 0, i.e. it relies on sympy.div returning the exact quotient when one exists.
+   sympy.div is NOT modelled and stays in the TRUSTED base: it is trusted to return THE polynomial
+   q with q * c_poly = a_poly.  That polynomial is unique (C09_exact_quotient_unique: the
+   polynomials over Z in L variables have no zero divisors), and the model's own exact division
+   poly_div (long division by leading terms in the lexicographic order, on canonical tables, with a
+   fuel bound) is PROVED to return it (C09_exact_division) for dividend = B * c with B, c tables of
+   counts: non-negative coefficients, non-negative exponents, c <> 0.  The correspondence check
+   compares poly_div with what the implementation (through sympy) returns on every reverse product
+   rule with parameters. *)
+Theorem C09_exact_quotient_unique : forall L p d q q',
+  klen L d -> klen L q -> klen L q' -> ~ pzero d ->
+  exact_quotient p d q -> exact_quotient p d q' -> teq q q'.
+Proof. exact exact_quotient_unique. Qed.
+
+Theorem C09_no_zero_divisors : forall L a b,
+  klen L a -> klen L b -> pzero (pmul a b) -> pzero a \/ pzero b.
+Proof. exact pmul_no_zero_divisors. Qed.
+
+(* slen / snonneg speak about the monomials with a non-zero coefficient only *)
+Theorem C09_exact_division : forall L a c B,
+  slen L B -> slen L c -> snonneg B -> snonneg c ->
+  (forall p, 0 <= tget B p) -> (forall p, 0 <= tget c p) -> ~ pzero c ->
+  teq a (pmul B c) ->
+  exists b, poly_div a c = Ok b /\ canon b /\ teq b B.
+Proof. exact poly_div_exact. Qed.
+
+(* ... and it is the quotient every exact divider must return *)
+Theorem C09_exact_division_is_the_quotient : forall L a c B q,
+  klen L B -> klen L c -> snonneg B -> snonneg c ->
+  (forall p, 0 <= tget B p) -> (forall p, 0 <= tget c p) -> ~ pzero c ->
+  teq a (pmul B c) -> klen L q -> exact_quotient a c q ->
+  exists b, poly_div a c = Ok b /\ teq b q.
+Proof. exact poly_div_is_the_exact_quotient. Qed.
+
+(* THE QUOTIENT RULE.  cs = (minimum size, is_atom) of the ORIGINAL product's children, fs their
+   parameter maps (child tuple -> parent tuple), tabs their true tables, TP the original parent's,
+   num >= 1 the number of parent parameters, ppm the parent map Quotient._parent_param_map.
+   Running Rule._ensure_level for sizes 0..N with the Quotient constructor of child idx raises
+   nothing and level m is the TRUE TABLE of child idx at size m, for every parameter tuple.
+   What the code needs (read off cartesian.py Quotient.__init__/_a/_c/_b/get_terms):
+     * >= 2 children; the minimum_size_of_object / is_atom contract (Vanish) — compositions are
+       pruned by _min_sizes/_max_sizes, and _parent_shift = sum of the siblings' minimum sizes;
+     * the product rule is genuine (full convolution, parameters added through fs) at the sizes
+       read: level n reads the parent at n + _parent_shift, so sizes 0 .. N + _parent_shift;
+     * every sibling has an object of its MINIMUM size (hprod <> 0): _c is built from the single
+       composition of _parent_shift, the siblings at their minimum sizes — otherwise c_poly = 0;
+     * tables are counts (>= 0) and parameter values are >= 0 (they are exponents);
+     * the parent map sends the image f_idx(k) of a tuple k of the flipped child back to k and
+       raises nothing (C09_quotient_parent_map_round_trip discharges this for the map the code
+       builds when every statistic of the flipped child is the image of a parent statistic;
+       merged statistics on the flipped child ARE fine here, untracked ones are the open finding
+       "complement-untracked-child-statistic": Quotient.param_map asserts).
+   Siblings may drop / merge / add statistics arbitrarily (fs are arbitrary maps). *)
+Theorem C09_quotient_params : forall fs ppm num cs idx TP tabs N,
+  (idx < length cs)%nat -> (2 <= length cs)%nat -> length tabs = length cs -> length fs = length cs ->
+  (1 <= num)%nat ->
+  Forall (fun f : params -> params => forall k, length (f k) = num) fs ->
+  Forall (fun m => 0 <= m) (quotient_min_sizes cs) ->
+  Vanish tabs (quotient_min_sizes cs) (quotient_max_sizes cs) ->
+  Forall (fun tab : Z -> terms => forall m, nonneg (tab m)) tabs ->
+  Forall2 (fun (f : params -> params) (tab : Z -> terms) =>
+             forall m k v, In (k, v) (tab m) -> Forall (fun y => 0 <= y) (f k)) fs tabs ->
+  (forall m, 0 <= m <= N + quotient_parent_shift cs (Z.of_nat idx) -> product_genuine fs tabs (TP m) m) ->
+  hprod (remove_at idx tabs) (remove_at idx (quotient_min_sizes cs)) <> 0 ->
+  (forall m k v, In (k, v) (nth idx tabs (fun _ => []) m) -> ppm (nth idx fs (fun k0 => k0) k) = Ok k) ->
+  0 <= N ->
+  exists tl : list terms,
+    levels (qstep_p fs ppm num cs idx TP tabs) N = (tl, None) /\ length tl = Z.to_nat (N + 1) /\
+    forall m, (m < length tl)%nat -> teq (nth m tl []) (nth idx tabs (fun _ => []) (Z.of_nat m)).
+Proof. exact quotient_params_correct. Qed.
+
+(* Quotient.param_map over the position map _build_parent_param_map builds (parent_pm), applied
+   to the image of a child tuple: returns that tuple, no assertion — when every statistic of the
+   flipped child is a value of its dictionary *)
+Theorem C09_quotient_parent_map_round_trip : forall pnames cnames d k,
+  wf_dict pnames cnames d ->
+  (forall a b, In (a, b) d -> In b cnames) ->
+  (forall cv, In cv cnames -> In cv (map snd d)) ->
+  length k = length cnames ->
+  parent_pos_map pnames cnames d = Ok (parent_pm pnames cnames d) /\
+  q_param_map (parent_pm pnames cnames d) (length cnames) (dict_sem pnames cnames d k) = Ok k.
+Proof.
+  intros pnames cnames d k Hwf Hv Hc Hl. split.
+  - apply parent_pos_map_ok; [exact Hv|]. destruct Hwf as (_ & H & _). exact H.
+  - apply quotient_parent_map_round_trip; assumption.
+Qed.
+
+(* ------------------------------------------------------------ END TO END: the executable steps
+   The correspondence check runs the functions *_step of Count/Constructors.v (they build the
+   position maps from the extra_parameters dictionaries like the constructors' __init__ and then
+   call get_terms) inside `levels` (Rule._ensure_level).  The theorems below are about exactly
+   those functions: kids = (names, dictionary, minimum size, is_atom, is_empty) of the original
+   rule's children, ktabs/ptabs the true tables by size (tab_at t n = the table of size n);
+   genuineness is stated through the dictionary semantics kid_sem = dict_sem (a dropped statistic
+   is 0, merged statistics share a child statistic, child statistics may be untracked).
+     kid_wf       the dictionary is well formed (distinct names, distinct keys among the parent's)
+     kid_keys k t every key of t has one entry per statistic of the class
+     flip_ok      the flipped child's dictionary is injective, onto the child's statistics
+   C09_*_step_is_* are the refinement lemmas (step = constructor get_terms over the built maps). *)
+Theorem C09_union_step_is_union_get_terms : forall pnames kids ktabs own n,
+  Forall (kid_wf pnames) kids ->
+  union_step pnames kids ktabs own n =
+  union_get_terms (map (kid_du pnames) kids) (map (fun t => tab_at t n) ktabs).
+Proof. exact union_step_is_union_get_terms. Qed.
+
+Theorem C09_union_step : forall pnames kids ktabs Tp own n,
+  Forall (kid_wf pnames) kids ->
+  Forall2 kid_keys kids (map (fun t => tab_at t n) ktabs) ->
+  union_genuine (map (kid_sem pnames) kids) (map (fun t => tab_at t n) ktabs) Tp ->
+  exists r, union_step pnames kids ktabs own n = Ok r /\ teq r Tp.
+Proof. exact union_step_correct. Qed.
+
+Theorem C09_product_step_is_product_get_terms : forall pnames kids ktabs own n,
+  Forall (kid_wf pnames) kids ->
+  product_step pnames kids ktabs own n =
+  Ok (product_get_terms (map (kid_sum pnames) kids) (kid_mins kids) (kid_maxs kids) (map tab_at ktabs) n).
+Proof. exact product_step_is_product_get_terms. Qed.
+
+Theorem C09_product_step : forall pnames kids ktabs Tp own n,
+  (1 <= length kids)%nat -> length ktabs = length kids ->
+  Forall (kid_wf pnames) kids ->
+  Forall2 (fun k (tab : Z -> terms) => forall m, kid_keys k (tab m)) kids (map tab_at ktabs) ->
+  Forall (fun m => 0 <= m) (kid_mins kids) ->
+  Vanish (map tab_at ktabs) (kid_mins kids) (kid_maxs kids) ->
+  product_genuine (map (kid_sem pnames) kids) (map tab_at ktabs) Tp n ->
+  exists r, product_step pnames kids ktabs own n = Ok r /\ teq r Tp.
+Proof. exact product_step_correct. Qed.
+
+Theorem C09_complement_step_is_complement_get_terms : forall pnames kids idx ptabs ktabs own n,
+  let ki := nth idx kids default_kid in
+  Forall (kid_wf pnames) kids ->
+  (forall a b, In (a, b) (k_dict ki) -> In b (k_names ki)) ->
+  exists pm, parent_pos_map pnames (k_names ki) (k_dict ki) = Ok pm /\
+  complement_step pnames kids idx ptabs ktabs own n =
+  complement_get_terms (du_param_map pm (length (k_names ki))) (map (kid_du pnames) (remove_at idx kids))
+    (tab_at ptabs n) (map (fun t => tab_at t n) (remove_at idx ktabs)).
+Proof. exact complement_step_is_complement_get_terms. Qed.
+
+Theorem C09_complement_step : forall pnames kids idx ptabs ktabs own n,
+  let ki := nth idx kids default_kid in
+  (idx < length kids)%nat -> length ktabs = length kids ->
+  NoDup pnames -> Forall (kid_wf pnames) kids -> flip_ok pnames ki ->
+  klen (length pnames) (tab_at ptabs n) ->
+  Forall2 kid_keys kids (map (fun t => tab_at t n) ktabs) ->
+  Forall nonneg (map (fun t => tab_at t n) ktabs) ->
+  union_genuine (map (kid_sem pnames) kids) (map (fun t => tab_at t n) ktabs) (tab_at ptabs n) ->
+  exists r, complement_step pnames kids idx ptabs ktabs own n = Ok r /\
+            teq r (tab_at (nth idx ktabs []) n).
+Proof. exact complement_step_correct. Qed.
+
+Theorem C09_quotient_step_is_qstep : forall pnames kids idx ptabs ktabs own n,
+  let ki := nth idx kids default_kid in
+  Forall (kid_wf pnames) kids -> NoDup (k_names ki) ->
+  (forall a b, In (a, b) (k_dict ki) -> In b (k_names ki)) ->
+  quotient_step pnames kids idx ptabs ktabs own n =
+  qstep_p (map (kid_sum pnames) kids) (quot_ppm pnames ki) (length pnames) (kid_descs kids) idx
+          (tab_at ptabs) (map tab_at ktabs) own n.
+Proof. exact quotient_step_is_qstep_p. Qed.
+
+Theorem C09_quotient_step : forall pnames kids idx ptabs ktabs N,
+  let ki := nth idx kids default_kid in
+  let psh := quotient_parent_shift (kid_descs kids) (Z.of_nat idx) in
+  (idx < length kids)%nat -> (2 <= length kids)%nat -> length ktabs = length kids ->
+  (1 <= length pnames)%nat ->
+  Forall (kid_wf pnames) kids ->
+  (forall a b, In (a, b) (k_dict ki) -> In b (k_names ki)) ->
+  (forall cv, In cv (k_names ki) -> In cv (map snd (k_dict ki))) ->
+  Forall2 (fun k (tab : Z -> terms) => forall m, kid_keys k (tab m)) kids (map tab_at ktabs) ->
+  Forall (fun tab : Z -> terms => forall m, nonneg (tab m)) (map tab_at ktabs) ->
+  Forall (fun tab : Z -> terms => forall m, knonneg (tab m)) (map tab_at ktabs) ->
+  Forall (fun m => 0 <= m) (kid_mins kids) ->
+  Vanish (map tab_at ktabs) (kid_mins kids) (kid_maxs kids) ->
+  (forall m, 0 <= m <= N + psh ->
+     product_genuine (map (kid_sem pnames) kids) (map tab_at ktabs) (tab_at ptabs m) m) ->
+  hprod (remove_at idx (map tab_at ktabs)) (remove_at idx (kid_mins kids)) <> 0 ->
+  0 <= N ->
+  exists tl : list terms,
+    levels (quotient_step pnames kids idx ptabs ktabs) N = (tl, None) /\ length tl = Z.to_nat (N + 1) /\
+    forall m, (m < length tl)%nat -> teq (nth m tl []) (tab_at (nth idx ktabs []) (Z.of_nat m)).
+Proof. exact quotient_step_correct. Qed.
+
+Theorem C09_quotient_step_parameter_free : forall kids idx ptabs ktabs N,
+  let psh := quotient_parent_shift (kid_descs kids) (Z.of_nat idx) in
+  (idx < length kids)%nat -> (2 <= length kids)%nat -> length ktabs = length kids ->
+  Forall (fun k => k_names k = [] /\ k_dict k = []) kids ->
+  Forall (fun tab : Z -> terms => forall m, nonneg (tab m)) (map tab_at ktabs) ->
+  (forall m, nokeys (tab_at ptabs m)) ->
+  Forall (fun m => 0 <= m) (kid_mins kids) ->
+  Vanish (map tab_at ktabs) (kid_mins kids) (kid_maxs kids) ->
+  (forall m, 0 <= m <= N + psh ->
+     product_genuine (map (kid_sum []) kids) (map tab_at ktabs) (tab_at ptabs m) m) ->
+  hprod (remove_at idx (map tab_at ktabs)) (remove_at idx (kid_mins kids)) <> 0 ->
+  0 <= N ->
+  exists tl : list terms,
+    levels (quotient_step [] kids idx ptabs ktabs) N = (tl, None) /\ length tl = Z.to_nat (N + 1) /\
+    forall m, (m < length tl)%nat ->
+      nokeys (nth m tl []) /\ tsum (nth m tl []) = tsum (tab_at (nth idx ktabs []) (Z.of_nat m)).
+Proof. exact quotient_step_parameter_free_correct. Qed.
+
+Theorem C09_equivalence_step : forall pnames kids ktabs Tp own n ci,
+  first_nonempty kids = Some ci -> length ktabs = length kids ->
+  kid_wf pnames (nth ci kids default_kid) ->
+  kid_keys (nth ci kids default_kid) (tab_at (nth ci ktabs []) n) ->
+  (forall j, j <> ci -> (j < length kids)%nat -> allzero (tab_at (nth j ktabs []) n)) ->
+  union_genuine (map (kid_sem pnames) kids) (map (fun t => tab_at t n) ktabs) Tp ->
+  exists r, equiv_union_step pnames kids ktabs own n = Ok r /\ teq r Tp.
+Proof. exact equiv_union_step_correct. Qed.
+
+Theorem C09_equivalence_step_is_union_get_terms : forall pnames kids ktabs own n ci,
+  first_nonempty kids = Some ci -> kid_wf pnames (nth ci kids default_kid) ->
+  equiv_union_step pnames kids ktabs own n =
+  union_get_terms [kid_du pnames (nth ci kids default_kid)] [tab_at (nth ci ktabs []) n].
+Proof. exact equiv_union_step_is_union_get_terms. Qed.
+
+Theorem C09_equivalence_reverse_step_is_complement_get_terms : forall pnames kids idx ptabs own n ci,
+  let kd := nth ci kids default_kid in
+  let kc := nth idx kids default_kid in
+  first_nonempty kids = Some ci ->
+  (forall a b, In (a, b) (k_dict kd) -> In b (k_names kc)) ->
+  equiv_complement_step pnames kids idx ptabs own n =
+  complement_get_terms
+    (du_param_map (map (fun pv => match dict_get (k_dict kd) pv with Some cv => [posn (k_names kc) cv] | None => [] end) pnames)
+                  (length (k_names kc)))
+    [] (tab_at ptabs n) [].
+Proof. exact equiv_complement_step_is_complement_get_terms. Qed.
+
+Theorem C09_equivalence_reverse_step : forall pnames kids idx ptabs (Ti : terms) own n,
+  let ki := nth idx kids default_kid in
+  first_nonempty kids = Some idx -> NoDup pnames -> flip_ok pnames ki ->
+  klen (length pnames) (tab_at ptabs n) -> kid_keys ki Ti -> nonneg Ti ->
+  union_genuine [kid_sem pnames ki] [Ti] (tab_at ptabs n) ->
+  exists r, equiv_complement_step pnames kids idx ptabs own n = Ok r /\ teq r Ti.
+Proof. exact equiv_complement_step_correct. Qed.
+
+Theorem C09_path_step : forall s0 steps chain (T0 : terms) tabs own n,
+  let first := step_source s0 in
+  let lastn := step_target (last (s0 :: steps) s0) in
+  NoDup first -> klen (length first) T0 ->
+  chain_ok first T0 chain ->
+  map step_dict (s0 :: steps) = map Some (map (fun s : list Z * dict * terms => snd (fst s)) chain) ->
+  fst (chain_end first T0 chain) = lastn ->
+  snd (chain_end first T0 chain) = tab_at tabs n ->
+  wf_dict first lastn (fold_left dict_compose (map (fun s : list Z * dict * terms => snd (fst s)) chain) (id_dict first)) ->
+  klen (length lastn) (tab_at tabs n) ->
+  exists r, path_step (s0 :: steps) tabs own n = Ok r /\ teq r T0.
+Proof. exact path_step_correct. Qed.
+
+Theorem C09_path_step_is_union_get_terms : forall s0 steps ds pm tabs own n,
+  let first := step_source s0 in
+  let lastn := step_target (last (s0 :: steps) s0) in
+  map step_dict (s0 :: steps) = map Some ds ->
+  child_pos_map first lastn (fold_left dict_compose ds (id_dict first)) = Ok pm ->
+  path_step (s0 :: steps) tabs own n =
+  union_get_terms [du_param_map pm (length first)] [tab_at tabs n].
+Proof. exact path_step_is_union_get_terms. Qed.
+
+(* Rule._ensure_level for the forms that never read the rule's own terms: if the step is right at
+   every size, `levels` returns exactly those levels and no exception *)
+Theorem C09_levels : forall (step : (Z -> terms) -> Z -> res terms) (good : Z -> terms -> Prop) N,
+  0 <= N ->
+  (forall own m, 0 <= m <= N -> exists r, step own m = Ok r /\ good m r) ->
+  exists tl, levels step N = (tl, None) /\ length tl = Z.to_nat (N + 1) /\
+             forall j, (j < length tl)%nat -> good (Z.of_nat j) (nth j tl []).
+Proof. exact levels_pointwise. Qed.
 
 (* ------------------------------------------------------------ equivalence rules *)
 (* EquivalenceRule of a union rule: DisjointUnion(parent, (child,), (extra_parameters[ci],))
@@ -479,7 +749,7 @@ Proof.
   - exact q_vanish.
   - exact q_nonneg.
   - intros m. apply product_table_nokeys. exact q_const_nil.
-  - intros m. unfold product_genuine, qTP. apply teq_refl.
+  - intros m _. unfold product_genuine, qTP. apply teq_refl.
   - vm_compute. discriminate.
   - lia.
 Qed.
@@ -688,6 +958,512 @@ Example C09_path_dictionary_value :
             (Ok (id_dict [10])) = Err E_NOTIMPL.
 Proof. repeat split; vm_compute; reflexivity. Qed.
 
+(* ------------------------------------------------------------------------
+   NON-VACUITY of the theorems added for the quotient with parameters and for the executable
+   steps: each theorem APPLIED to concrete rules (so that Coq checks the hypotheses are its own),
+   with the value the model computes and a near miss where cheap. *)
+
+(* helpers for tables given by size as lists (the form the steps take) *)
+Lemma tab_at_forall (P : terms -> Prop) (L : list terms) : P [] -> Forall P L -> forall m, P (tab_at L m).
+Proof.
+  intros H0 H m. unfold tab_at. destruct (m <? 0); [exact H0|].
+  destruct (nth_in_or_default (Z.to_nat m) L []) as [Hin|E]; [|rewrite E; exact H0].
+  rewrite Forall_forall in H. apply H. exact Hin.
+Qed.
+Lemma tab_at_vanish (L : list terms) lo hi :
+  (forall j, (j < length L)%nat -> (Z.of_nat j < lo \/ ~ bounded (Z.of_nat j) hi) -> allzero (nth j L [])) ->
+  forall m, (m < lo \/ ~ bounded m hi) -> allzero (tab_at L m).
+Proof.
+  intros H m Hm. unfold tab_at. destruct (Z.ltb_spec m 0); [intros ? ? []|].
+  destruct (Nat.lt_ge_cases (Z.to_nat m) (length L)) as [Hlt|Hge].
+  - apply H; [exact Hlt|]. rewrite Z2Nat.id by lia. exact Hm.
+  - rewrite nth_overflow by exact Hge. intros ? ? [].
+Qed.
+Lemma klen_nil L : klen L []. Proof. intros ? ? []. Qed.
+Lemma nonneg_nil : nonneg []. Proof. intros ? ? []. Qed.
+Lemma knonneg_nil : knonneg []. Proof. intros ? ? []. Qed.
+Lemma allzero_nil : allzero []. Proof. intros ? ? []. Qed.
+Ltac wf_explicit :=
+  unfold kid_wf; simpl;
+  split; [repeat constructor; simpl; intuition discriminate|];
+  split; [repeat constructor; simpl; intuition discriminate|];
+  split; [repeat constructor; simpl; intuition discriminate|];
+  let a := fresh "a" in let b := fresh "b" in let H := fresh "H" in
+  intros a b H; simpl in H; repeat (destruct H as [H|H]; [inversion H; subst; simpl; tauto|]); try contradiction.
+(* evaluates both sides of  teq a b  and compares the explicit tables *)
+Ltac teq_compute :=
+  match goal with |- teq ?a ?b =>
+    let a' := eval vm_compute in a in let b' := eval vm_compute in b in
+    replace a with a' by (vm_compute; reflexivity); replace b with b' by (vm_compute; reflexivity) end;
+  teq_explicit.
+Ltac each_kid tac := repeat (apply Forall_cons; [tac|]); apply Forall_nil.
+Ltac each_kid2 tac := repeat (apply Forall2_cons; [tac|]); apply Forall2_nil.
+Ltac klen_explicit := let k := fresh "k" in let v := fresh "v" in let H := fresh "H" in
+  intros k v H; cbn in H; repeat (destruct H as [H|H]; [inversion H; subst; clear H; try reflexivity; try lia;
+    try (repeat constructor; lia)|]); try contradiction.
+
+(* ---- exact division ---- *)
+(* (2 + 3 k0 k1) * (1 + k0) = 2 + 2 k0 + 3 k0 k1 + 3 k0^2 k1  in Z[k0, k1] *)
+Definition dvB : terms := [([0; 0], 2); ([1; 1], 3)].
+Definition dvC : terms := [([1; 0], 1); ([0; 0], 1)].
+Definition dvA : terms := [([2; 1], 3); ([0; 0], 2); ([1; 0], 1); ([1; 1], 3); ([1; 0], 1)].
+Lemma dv_product : teq dvA (pmul dvB dvC).
+Proof. teq_compute. Qed.
+Lemma dv_slen : slen 2 dvB /\ slen 2 dvC /\ snonneg dvB /\ snonneg dvC.
+Proof.
+  repeat split; intros k Hk; destruct (tget_nonzero_in _ _ Hk) as (v & Hin); revert k v Hin Hk;
+    (klen_explicit; intros; try reflexivity; repeat constructor; lia).
+Qed.
+Lemma dv_nonneg : (forall p, 0 <= tget dvB p) /\ (forall p, 0 <= tget dvC p) /\ ~ pzero dvC.
+Proof.
+  split; [intros p; apply tget_nonneg; by_entries|]. split; [intros p; apply tget_nonneg; by_entries|].
+  intros H. specialize (H [0; 0]). vm_compute in H. discriminate.
+Qed.
+Example C09_exact_division_nonvacuous : exists b, poly_div dvA dvC = Ok b /\ canon b /\ teq b dvB.
+Proof.
+  destruct dv_slen as (H1 & H2 & H3 & H4). destruct dv_nonneg as (H5 & H6 & H7).
+  exact (C09_exact_division 2 dvA dvC dvB H1 H2 H3 H4 H5 H6 H7 dv_product).
+Qed.
+Example C09_exact_division_value :
+  poly_div dvA dvC = Ok [([0; 0], 2); ([1; 1], 3)] /\
+  (* a dividend that is not a multiple: the remainder is not 0 (Python: assert remainder == 0) *)
+  poly_div (([0; 1], 1) :: dvA) dvC = Err E_ASSERT /\
+  poly_div dvA [] = Err E_ZERODIV.
+Proof. repeat split; vm_compute; reflexivity. Qed.
+Example C09_exact_division_is_the_quotient_nonvacuous :
+  exists b, poly_div dvA dvC = Ok b /\ teq b [([1; 1], 1); ([0; 0], 2); ([1; 1], 2)].
+Proof.
+  destruct dv_slen as (H1 & H2 & H3 & H4). destruct dv_nonneg as (H5 & H6 & H7).
+  apply (C09_exact_division_is_the_quotient 2 dvA dvC dvB [([1; 1], 1); ([0; 0], 2); ([1; 1], 2)]);
+    try assumption; try klen_explicit.
+  - exact dv_product.
+  - unfold exact_quotient. teq_compute.
+Qed.
+Example C09_exact_quotient_unique_nonvacuous :
+  teq dvB [([1; 1], 1); ([0; 0], 2); ([1; 1], 2)].
+Proof.
+  destruct dv_nonneg as (_ & _ & H7).
+  apply (C09_exact_quotient_unique 2 dvA dvC dvB [([1; 1], 1); ([0; 0], 2); ([1; 1], 2)]); try klen_explicit; try exact H7.
+  - unfold exact_quotient. apply teq_sym. exact dv_product.
+  - unfold exact_quotient. teq_compute.
+Qed.
+Example C09_no_zero_divisors_nonvacuous :
+  pzero [([1; 0], 2); ([1; 0], -2)] \/ pzero dvC.
+Proof.
+  apply (C09_no_zero_divisors 2); try klen_explicit.
+  intros p. rewrite (pmul_teq_l [([1; 0], 2); ([1; 0], -2)] [] dvC); [reflexivity|]. teq_explicit.
+Qed.
+
+(* ---- quotient with parameters: the product  a x W  of C09_product_nonvacuous reversed w.r.t. W ----
+   a: atom of size 1 carrying statistic value 1;  W: the binary words of length <= 2 by number of b's;
+   the parent's TRUE tables are written down independently (sizes 0..4 are read for levels 0..3) *)
+Definition tabProd (m : Z) : terms :=
+  if m =? 1 then [([1], 1)] else if m =? 2 then [([2], 1); ([1], 1)]
+  else if m =? 3 then [([3], 1); ([2], 1); ([1], 1); ([2], 1)] else [].
+Definition qpcs : list (Z * bool) := [(1, true); (0, false)].
+Lemma tabWords_entries m k v : In (k, v) (tabWords m) -> In (k, v) [([0], 1); ([1], 1); ([1], 2); ([2], 1)].
+Proof.
+  unfold tabWords. destruct (m =? 0); [|destruct (m =? 1); [|destruct (m =? 2)]]; simpl; intuition.
+Qed.
+Lemma tabAtom_entries m k v : In (k, v) (tabAtom m) -> (k, v) = ([1], 1).
+Proof. unfold tabAtom. destruct (m =? 1); simpl; intuition. Qed.
+Lemma qp_genuine : forall m, 0 <= m <= 3 + quotient_parent_shift qpcs (Z.of_nat 1) ->
+  product_genuine [f1; f1] [tabAtom; tabWords] (tabProd m) m.
+Proof.
+  intros m Hm. change (quotient_parent_shift qpcs (Z.of_nat 1)) with 1 in Hm.
+  assert (E : m = 0 \/ m = 1 \/ m = 2 \/ m = 3 \/ m = 4) by lia.
+  destruct E as [->|[->|[->|[->| ->]]]]; unfold product_genuine; teq_compute.
+Qed.
+Example C09_quotient_params_nonvacuous :
+  exists tl : list terms,
+    levels (qstep_p [f1; f1] (q_param_map [[0%nat]] 1) 1 qpcs 1 tabProd [tabAtom; tabWords]) 3 = (tl, None) /\
+    length tl = Z.to_nat (3 + 1) /\
+    forall m, (m < length tl)%nat -> teq (nth m tl []) (nth 1 [tabAtom; tabWords] (fun _ => []) (Z.of_nat m)).
+Proof.
+  apply (C09_quotient_params [f1; f1] (q_param_map [[0%nat]] 1) 1 qpcs 1 tabProd [tabAtom; tabWords] 3).
+  - simpl; lia.
+  - simpl; lia.
+  - reflexivity.
+  - reflexivity.
+  - lia.
+  - repeat constructor; intros k; apply sum_param_map_length.
+  - repeat constructor; simpl; lia.
+  - exact prod_vanish.
+  - repeat constructor; intros m k v H.
+    + apply tabAtom_entries in H. inversion H. lia.
+    + apply tabWords_entries in H. simpl in H. repeat (destruct H as [H|H]; [inversion H; lia|]). contradiction.
+  - repeat constructor; intros m k v H.
+    + apply tabAtom_entries in H. inversion H. vm_compute. repeat constructor; discriminate.
+    + apply tabWords_entries in H. simpl in H.
+      repeat (destruct H as [H|H]; [inversion H; vm_compute; repeat constructor; discriminate|]). contradiction.
+  - exact qp_genuine.
+  - vm_compute. discriminate.
+  - intros m k v H. simpl in H. apply tabWords_entries in H. simpl in H.
+    repeat (destruct H as [H|H]; [inversion H; reflexivity|]). contradiction.
+  - lia.
+Qed.
+Example C09_quotient_params_value :
+  let r := levels (qstep_p [f1; f1] (q_param_map [[0%nat]] 1) 1 qpcs 1 tabProd [tabAtom; tabWords]) 3 in
+  map tnorm (fst r) = [[([0], 1)]; [([0], 1); ([1], 1)]; [([0], 1); ([1], 2); ([2], 1)]; []] /\ snd r = None /\
+  (* a sibling without an object of its minimum size: c_poly = 0, the code divides by zero *)
+  snd (levels (qstep_p [f1; f1] (q_param_map [[0%nat]] 1) 1 qpcs 1 tabProd [(fun _ => []); tabWords]) 3)
+  = Some E_ZERODIV /\
+  (* a parent table that is not the convolution: the division leaves a remainder *)
+  snd (levels (qstep_p [f1; f1] (q_param_map [[0%nat]] 1) 1 qpcs 1
+                 (fun m => if m =? 2 then [([2], 1); ([0], 1)] else tabProd m) [tabAtom; tabWords]) 3)
+  = Some E_ASSERT.
+Proof. vm_compute. repeat split; reflexivity. Qed.
+
+(* Quotient.param_map on the image of a child tuple; parent statistics 0 and 2 are BOTH mapped onto
+   the child statistic 10 (merged: fine for Quotient), parent statistic 3 is dropped *)
+Definition rt_d : dict := [(0, 10); (1, 11); (2, 10)].
+Lemma rt_wf : wf_dict [0; 1; 2; 3] [10; 11] rt_d.
+Proof.
+  split; [repeat constructor; simpl; intuition discriminate|].
+  split; [repeat constructor; simpl; intuition discriminate|].
+  split; [repeat constructor; simpl; intuition discriminate|].
+  intros a b H. simpl in H. repeat (destruct H as [H|H]; [inversion H; subst; simpl; tauto|]). contradiction.
+Qed.
+Example C09_quotient_parent_map_round_trip_nonvacuous :
+  parent_pos_map [0; 1; 2; 3] [10; 11] rt_d = Ok (parent_pm [0; 1; 2; 3] [10; 11] rt_d) /\
+  q_param_map (parent_pm [0; 1; 2; 3] [10; 11] rt_d) (length [10; 11]) (dict_sem [0; 1; 2; 3] [10; 11] rt_d [5; 7]) = Ok [5; 7].
+Proof.
+  apply (C09_quotient_parent_map_round_trip [0; 1; 2; 3] [10; 11] rt_d [5; 7] rt_wf); [| |reflexivity].
+  - intros a b H. simpl in H. repeat (destruct H as [H|H]; [inversion H; subst; simpl; tauto|]). contradiction.
+  - intros cv H. simpl in H. repeat (destruct H as [H|H]; [subst; simpl; tauto|]). contradiction.
+Qed.
+Example C09_quotient_parent_map_round_trip_value :
+  parent_pm [0; 1; 2; 3] [10; 11] rt_d = [[0%nat]; [1%nat]; [0%nat]; []] /\
+  dict_sem [0; 1; 2; 3] [10; 11] rt_d [5; 7] = [5; 7; 5; 0] /\
+  (* an untracked statistic (12) of the flipped child: Quotient.param_map asserts (the open finding) *)
+  q_param_map (parent_pm [0; 1; 2; 3] [10; 11; 12] rt_d) 3 (dict_sem [0; 1; 2; 3] [10; 11; 12] rt_d [5; 7; 9]) = Err E_ASSERT /\
+  (* a parent tuple that is not an image (merged statistics differ): asserts as well *)
+  q_param_map (parent_pm [0; 1; 2; 3] [10; 11] rt_d) 2 [5; 7; 6; 0] = Err E_ASSERT.
+Proof. repeat split; vm_compute; reflexivity. Qed.
+
+(* ---- quotient, parameter-free, on NATURAL tables: words over {a, b} starting with a  =  a x W ----
+   a: the atom (one object of size 1), W: all words (2^m of size m), parent: 2^(m-1) words of
+   size m >= 1.  Levels 0..4 read the parent up to size 5 only; nothing is claimed or needed above. *)
+Definition nA (m : Z) : terms := if m =? 1 then [([], 1)] else [].
+Definition nW (m : Z) : terms := if m <? 0 then [] else [([], 2 ^ m)].
+Definition nP (m : Z) : terms := if m <? 1 then [] else [([], 2 ^ (m - 1))].
+Definition ncs : list (Z * bool) := [(1, true); (0, false)].
+Lemma n_vanish : Vanish [nA; nW] (quotient_min_sizes ncs) (quotient_max_sizes ncs).
+Proof.
+  constructor; [|constructor; [|constructor]]; intros m Hm; simpl in Hm.
+  - unfold nA. destruct (Z.eqb_spec m 1) as [->|_]; [|intros k v []].
+    exfalso. destruct Hm as [Hm|Hm]; [lia|apply Hm; lia].
+  - destruct Hm as [Hm|Hm]; [|exfalso; apply Hm; exact I]. unfold nW.
+    destruct (Z.ltb_spec m 0); [intros k v []|lia].
+Qed.
+Lemma n_genuine : forall m, 0 <= m <= 4 + quotient_parent_shift ncs (Z.of_nat 1) ->
+  product_genuine [f0; f0] [nA; nW] (nP m) m.
+Proof.
+  intros m Hm. change (quotient_parent_shift ncs (Z.of_nat 1)) with 1 in Hm.
+  assert (E : m = 0 \/ m = 1 \/ m = 2 \/ m = 3 \/ m = 4 \/ m = 5) by lia.
+  destruct E as [->|[->|[->|[->|[->| ->]]]]]; unfold product_genuine; teq_compute.
+Qed.
+Example C09_quotient_parameter_free_natural :
+  exists tl : list terms,
+    levels (qstep [f0; f0] (q_param_map [] 0) ncs 1 nP [nA; nW]) 4 = (tl, None) /\
+    length tl = Z.to_nat (4 + 1) /\
+    forall m, (m < length tl)%nat ->
+      nokeys (nth m tl []) /\ tsum (nth m tl []) = tsum (nth 1 [nA; nW] (fun _ => []) (Z.of_nat m)).
+Proof.
+  apply (C09_quotient_parameter_free [f0; f0] (q_param_map [] 0) ncs 1 nP [nA; nW] 4).
+  - simpl; lia.
+  - simpl; lia.
+  - reflexivity.
+  - repeat constructor; intros k; reflexivity.
+  - reflexivity.
+  - repeat constructor; simpl; lia.
+  - exact n_vanish.
+  - repeat constructor; intros m k v H.
+    + unfold nA in H. destruct (m =? 1); [|destruct H]. destruct H as [H|[]]. inversion H. lia.
+    + unfold nW in H. destruct (Z.ltb_spec m 0); [destruct H|]. destruct H as [H|[]]. inversion H.
+      apply Z.pow_nonneg. lia.
+  - intros m k v H. unfold nP in H. destruct (m <? 1); [destruct H|]. destruct H as [H|[]]. inversion H. reflexivity.
+  - exact n_genuine.
+  - vm_compute. discriminate.
+  - lia.
+Qed.
+Example C09_quotient_parameter_free_natural_value :
+  levels (qstep [f0; f0] (q_param_map [] 0) ncs 1 nP [nA; nW]) 4
+  = ([[([], 1)]; [([], 2)]; [([], 4)]; [([], 8)]; [([], 16)]], None).
+Proof. vm_compute. reflexivity. Qed.
+
+(* ---- the executable steps ---- *)
+(* the three-child union rule above, as the step sees it: kids with their dictionaries *)
+Definition kA : kid := mkKid [20] [(0, 20)] 0 false false.
+Definition kB : kid := mkKid [10; 11] [(1, 10); (0, 11)] 0 false false.
+Definition kC : kid := mkKid [] [] 0 false false.
+Definition u3_kids : list kid := [kA; kB; kC].
+Definition u3_ktabs : list (list terms) := [[tA]; [tB]; [tC]].
+Lemma u3_wf : Forall (kid_wf [0; 1]) u3_kids.
+Proof. each_kid wf_explicit. Qed.
+Lemma u3_keys : Forall2 kid_keys u3_kids (map (fun t => tab_at t 0) u3_ktabs).
+Proof. each_kid2 klen_explicit. Qed.
+Lemma u3_step_genuine : union_genuine (map (kid_sem [0; 1]) u3_kids) (map (fun t => tab_at t 0) u3_ktabs) tP.
+Proof. unfold union_genuine. teq_compute. Qed.
+Example C09_union_step_nonvacuous :
+  exists r, union_step [0; 1] u3_kids u3_ktabs (fun _ => []) 0 = Ok r /\ teq r tP.
+Proof. exact (C09_union_step [0; 1] u3_kids u3_ktabs tP (fun _ => []) 0 u3_wf u3_keys u3_step_genuine). Qed.
+Example C09_union_step_is_union_get_terms_nonvacuous :
+  union_step [0; 1] u3_kids u3_ktabs (fun _ => []) 0 =
+  union_get_terms (map (kid_du [0; 1]) u3_kids) (map (fun t => tab_at t 0) u3_ktabs).
+Proof. exact (C09_union_step_is_union_get_terms [0; 1] u3_kids u3_ktabs (fun _ => []) 0 u3_wf). Qed.
+Example C09_union_step_value :
+  union_step [0; 1] u3_kids u3_ktabs (fun _ => []) 0
+  = Ok [([3; 0], 4); ([7; 0], 1); ([7; 5], 2); ([1; 1], 3); ([0; 0], 6)] /\
+  (* a dictionary key that is not a parent statistic is not well formed: KeyError *)
+  union_step [0; 1] [mkKid [20] [(4, 20)] 0 false false] [[tA]] (fun _ => []) 0 = Err E_KEY.
+Proof. split; vm_compute; reflexivity. Qed.
+
+(* Rule._ensure_level over that step *)
+Example C09_levels_nonvacuous :
+  exists tl, levels (union_step [0; 1] u3_kids u3_ktabs) 0 = (tl, None) /\ length tl = Z.to_nat (0 + 1) /\
+             forall j, (j < length tl)%nat -> (fun m r => m = 0 /\ teq r tP) (Z.of_nat j) (nth j tl []).
+Proof.
+  apply (C09_levels (union_step [0; 1] u3_kids u3_ktabs) (fun m r => m = 0 /\ teq r tP) 0); [lia|].
+  intros own m Hm. assert (m = 0) by lia. subst m.
+  destruct (C09_union_step [0; 1] u3_kids u3_ktabs tP own 0 u3_wf u3_keys u3_step_genuine) as (r & Hr & Ht).
+  exists r. auto.
+Qed.
+
+(* its reverse w.r.t. the middle child B *)
+Lemma kB_flip : flip_ok [0; 1] (nth 1 u3_kids default_kid).
+Proof.
+  split; [wf_explicit|]. split; [simpl; repeat constructor; simpl; intuition discriminate|]. split.
+  - intros a b H. simpl in H. repeat (destruct H as [H|H]; [inversion H; subst; simpl; tauto|]). contradiction.
+  - intros cv H. simpl in H. repeat (destruct H as [H|H]; [subst; simpl; tauto|]). contradiction.
+Qed.
+Example C09_complement_step_nonvacuous :
+  exists r, complement_step [0; 1] u3_kids 1 [tP] u3_ktabs (fun _ => []) 0 = Ok r /\
+            teq r (tab_at (nth 1 u3_ktabs []) 0).
+Proof.
+  apply (C09_complement_step [0; 1] u3_kids 1 [tP] u3_ktabs (fun _ => []) 0).
+  - simpl; lia.
+  - reflexivity.
+  - repeat constructor; simpl; intuition discriminate.
+  - exact u3_wf.
+  - exact kB_flip.
+  - klen_explicit.
+  - exact u3_keys.
+  - repeat constructor; by_entries.
+  - exact u3_step_genuine.
+Qed.
+Example C09_complement_step_is_complement_get_terms_nonvacuous :
+  exists pm, parent_pos_map [0; 1] (k_names (nth 1 u3_kids default_kid)) (k_dict (nth 1 u3_kids default_kid)) = Ok pm /\
+  complement_step [0; 1] u3_kids 1 [tP] u3_ktabs (fun _ => []) 0 =
+  complement_get_terms (du_param_map pm (length (k_names (nth 1 u3_kids default_kid))))
+    (map (kid_du [0; 1]) (remove_at 1 u3_kids)) (tab_at [tP] 0) (map (fun t => tab_at t 0) (remove_at 1 u3_ktabs)).
+Proof.
+  apply (C09_complement_step_is_complement_get_terms [0; 1] u3_kids 1 [tP] u3_ktabs (fun _ => []) 0 u3_wf).
+  intros a b H. simpl in H. repeat (destruct H as [H|H]; [inversion H; subst; simpl; tauto|]). contradiction.
+Qed.
+Example C09_complement_step_value :
+  match complement_step [0; 1] u3_kids 1 [tP] u3_ktabs (fun _ => []) 0 with
+  | Ok r => tnorm r = [([1; 1], 3); ([5; 7], 2)] | Err _ => False end.
+Proof. vm_compute. reflexivity. Qed.
+
+(* the product a x W with tables by size as lists, and its reverse w.r.t. W *)
+Definition kAt : kid := mkKid [10] [(0, 10)] 1 true false.
+Definition kWo : kid := mkKid [20] [(0, 20)] 0 false false.
+Definition pq_kids : list kid := [kAt; kWo].
+Definition lAtom : list terms := [[]; [([1], 1)]; []; []; []].
+Definition lWords : list terms := [[([0], 1)]; [([0], 1); ([1], 1)]; [([0], 1); ([1], 2); ([2], 1)]; []; []].
+Definition lProd : list terms := [[]; [([1], 1)]; [([2], 1); ([1], 1)]; [([3], 1); ([2], 1); ([1], 1); ([2], 1)]; []].
+Definition pq_ktabs : list (list terms) := [lAtom; lWords].
+Lemma pq_wf : Forall (kid_wf [0]) pq_kids.
+Proof. each_kid wf_explicit. Qed.
+Lemma pq_keys : Forall2 (fun k (tab : Z -> terms) => forall m, kid_keys k (tab m)) pq_kids (map tab_at pq_ktabs).
+Proof.
+  each_kid2 ltac:(apply tab_at_forall; [apply klen_nil|each_kid klen_explicit]).
+Qed.
+Lemma pq_vanish : Vanish (map tab_at pq_ktabs) (kid_mins pq_kids) (kid_maxs pq_kids).
+Proof.
+  constructor; [|constructor; [|constructor]]; apply tab_at_vanish.
+  - intros [|[|[|[|[|j]]]]] Hj Hm; simpl in *; try lia; try apply allzero_nil; try (exfalso; destruct Hm as [Hm|Hm]; [lia|apply Hm; first [lia|exact I]]).
+  - intros [|[|[|[|[|j]]]]] Hj Hm; simpl in *; try lia; try apply allzero_nil; try (exfalso; destruct Hm as [Hm|Hm]; [lia|apply Hm; first [lia|exact I]]).
+Qed.
+Lemma pq_genuine : forall m, 0 <= m <= 4 ->
+  product_genuine (map (kid_sem [0]) pq_kids) (map tab_at pq_ktabs) (tab_at lProd m) m.
+Proof.
+  intros m Hm. assert (E : m = 0 \/ m = 1 \/ m = 2 \/ m = 3 \/ m = 4) by lia.
+  destruct E as [->|[->|[->|[->| ->]]]]; unfold product_genuine; teq_compute.
+Qed.
+Example C09_product_step_nonvacuous :
+  exists r, product_step [0] pq_kids pq_ktabs (fun _ => []) 3 = Ok r /\ teq r (tab_at lProd 3).
+Proof.
+  apply (C09_product_step [0] pq_kids pq_ktabs (tab_at lProd 3) (fun _ => []) 3).
+  - simpl; lia.
+  - reflexivity.
+  - exact pq_wf.
+  - exact pq_keys.
+  - repeat constructor; simpl; lia.
+  - exact pq_vanish.
+  - apply pq_genuine. lia.
+Qed.
+Example C09_product_step_is_product_get_terms_nonvacuous :
+  product_step [0] pq_kids pq_ktabs (fun _ => []) 3 =
+  Ok (product_get_terms (map (kid_sum [0]) pq_kids) (kid_mins pq_kids) (kid_maxs pq_kids) (map tab_at pq_ktabs) 3).
+Proof. exact (C09_product_step_is_product_get_terms [0] pq_kids pq_ktabs (fun _ => []) 3 pq_wf). Qed.
+Example C09_product_step_value :
+  product_step [0] pq_kids pq_ktabs (fun _ => []) 3 = Ok [([1], 1); ([2], 2); ([3], 1)].
+Proof. vm_compute. reflexivity. Qed.
+
+Example C09_quotient_step_nonvacuous :
+  exists tl : list terms,
+    levels (quotient_step [0] pq_kids 1 lProd pq_ktabs) 3 = (tl, None) /\ length tl = Z.to_nat (3 + 1) /\
+    forall m, (m < length tl)%nat -> teq (nth m tl []) (tab_at (nth 1 pq_ktabs []) (Z.of_nat m)).
+Proof.
+  apply (C09_quotient_step [0] pq_kids 1 lProd pq_ktabs 3).
+  - simpl; lia.
+  - simpl; lia.
+  - reflexivity.
+  - simpl; lia.
+  - exact pq_wf.
+  - intros a b H. simpl in H. repeat (destruct H as [H|H]; [inversion H; subst; simpl; tauto|]). contradiction.
+  - intros cv H. simpl in H. repeat (destruct H as [H|H]; [subst; simpl; tauto|]). contradiction.
+  - exact pq_keys.
+  - each_kid ltac:(apply tab_at_forall; [apply nonneg_nil|each_kid by_entries]).
+  - each_kid ltac:(apply tab_at_forall; [apply knonneg_nil|each_kid klen_explicit]).
+  - repeat constructor; simpl; lia.
+  - exact pq_vanish.
+  - intros m Hm. apply pq_genuine. change (quotient_parent_shift (kid_descs pq_kids) (Z.of_nat 1)) with 1 in Hm. lia.
+  - vm_compute. discriminate.
+  - lia.
+Qed.
+Example C09_quotient_step_is_qstep_nonvacuous : forall own n,
+  quotient_step [0] pq_kids 1 lProd pq_ktabs own n =
+  qstep_p (map (kid_sum [0]) pq_kids) (quot_ppm [0] (nth 1 pq_kids default_kid)) (length [0]) (kid_descs pq_kids) 1
+          (tab_at lProd) (map tab_at pq_ktabs) own n.
+Proof.
+  intros own n. apply (C09_quotient_step_is_qstep [0] pq_kids 1 lProd pq_ktabs own n pq_wf).
+  - simpl. repeat constructor; simpl; intuition discriminate.
+  - intros a b H. simpl in H. repeat (destruct H as [H|H]; [inversion H; subst; simpl; tauto|]). contradiction.
+Qed.
+Example C09_quotient_step_value :
+  let r := levels (quotient_step [0] pq_kids 1 lProd pq_ktabs) 3 in
+  map tnorm (fst r) = [[([0], 1)]; [([0], 1); ([1], 1)]; [([0], 1); ([1], 2); ([2], 1)]; []] /\ snd r = None.
+Proof. vm_compute. split; reflexivity. Qed.
+
+(* the parameter-free quotient step on the natural tables: words starting with a = a x W *)
+Definition nf_kids : list kid := [mkKid [] [] 1 true false; mkKid [] [] 0 false false].
+Definition nf_ktabs : list (list terms) :=
+  [[[]; [([], 1)]; []; []; []; []]; [[([], 1)]; [([], 2)]; [([], 4)]; [([], 8)]; [([], 16)]; [([], 32)]]].
+Definition nf_ptabs : list terms := [[]; [([], 1)]; [([], 2)]; [([], 4)]; [([], 8)]; [([], 16)]].
+Lemma nf_vanish : Vanish (map tab_at nf_ktabs) (kid_mins nf_kids) (kid_maxs nf_kids).
+Proof.
+  constructor; [|constructor; [|constructor]]; apply tab_at_vanish.
+  - intros [|[|[|[|[|[|j]]]]]] Hj Hm; simpl in *; try lia; try apply allzero_nil; try (exfalso; destruct Hm as [Hm|Hm]; [lia|apply Hm; first [lia|exact I]]).
+  - intros [|[|[|[|[|[|j]]]]]] Hj Hm; simpl in *; try lia; try apply allzero_nil; try (exfalso; destruct Hm as [Hm|Hm]; [lia|apply Hm; first [lia|exact I]]).
+Qed.
+Example C09_quotient_step_parameter_free_nonvacuous :
+  exists tl : list terms,
+    levels (quotient_step [] nf_kids 1 nf_ptabs nf_ktabs) 4 = (tl, None) /\ length tl = Z.to_nat (4 + 1) /\
+    forall m, (m < length tl)%nat ->
+      nokeys (nth m tl []) /\ tsum (nth m tl []) = tsum (tab_at (nth 1 nf_ktabs []) (Z.of_nat m)).
+Proof.
+  apply (C09_quotient_step_parameter_free nf_kids 1 nf_ptabs nf_ktabs 4).
+  - simpl; lia.
+  - simpl; lia.
+  - reflexivity.
+  - each_kid ltac:(split; reflexivity).
+  - each_kid ltac:(apply tab_at_forall; [apply nonneg_nil|each_kid by_entries]).
+  - apply tab_at_forall; [intros ? ? []|]. each_kid by_entries.
+  - repeat constructor; simpl; lia.
+  - exact nf_vanish.
+  - intros m Hm. change (quotient_parent_shift (kid_descs nf_kids) (Z.of_nat 1)) with 1 in Hm.
+    assert (E : m = 0 \/ m = 1 \/ m = 2 \/ m = 3 \/ m = 4 \/ m = 5) by lia.
+    destruct E as [->|[->|[->|[->|[->| ->]]]]]; unfold product_genuine; teq_compute.
+  - vm_compute. discriminate.
+  - lia.
+Qed.
+Example C09_quotient_step_parameter_free_value :
+  levels (quotient_step [] nf_kids 1 nf_ptabs nf_ktabs) 4
+  = ([[([], 1)]; [([], 2)]; [([], 4)]; [([], 8)]; [([], 16)]], None).
+Proof. vm_compute. reflexivity. Qed.
+
+(* the equivalence rule of the union whose only non-empty child is B, and its reverse *)
+Definition eq_ktabs : list (list terms) := [[[([4], 0)]]; [tB]; [[]]].
+Lemma eq_step_genuine : union_genuine (map (kid_sem [0; 1]) eq_kids) (map (fun t => tab_at t 0) eq_ktabs) tPB.
+Proof. unfold union_genuine. teq_compute. Qed.
+Example C09_equivalence_step_nonvacuous :
+  exists r, equiv_union_step [0; 1] eq_kids eq_ktabs (fun _ => []) 0 = Ok r /\ teq r tPB.
+Proof.
+  apply (C09_equivalence_step [0; 1] eq_kids eq_ktabs tPB (fun _ => []) 0 1).
+  - reflexivity.
+  - reflexivity.
+  - wf_explicit.
+  - klen_explicit.
+  - intros j Hj Hlt. destruct j as [|[|[|j]]]; simpl in Hlt; try lia; by_entries.
+  - exact eq_step_genuine.
+Qed.
+Example C09_equivalence_step_is_union_get_terms_nonvacuous :
+  equiv_union_step [0; 1] eq_kids eq_ktabs (fun _ => []) 0 =
+  union_get_terms [kid_du [0; 1] (nth 1 eq_kids default_kid)] [tab_at (nth 1 eq_ktabs []) 0].
+Proof.
+  apply (C09_equivalence_step_is_union_get_terms [0; 1] eq_kids eq_ktabs (fun _ => []) 0 1); [reflexivity|wf_explicit].
+Qed.
+Example C09_equivalence_step_value :
+  equiv_union_step [0; 1] eq_kids eq_ktabs (fun _ => []) 0 = Ok [([7; 5], 2); ([1; 1], 3)].
+Proof. vm_compute. reflexivity. Qed.
+Example C09_equivalence_reverse_step_nonvacuous :
+  exists r, equiv_complement_step [0; 1] eq_kids 1 [tPB] (fun _ => []) 0 = Ok r /\ teq r tB.
+Proof.
+  apply (C09_equivalence_reverse_step [0; 1] eq_kids 1 [tPB] tB (fun _ => []) 0).
+  - reflexivity.
+  - repeat constructor; simpl; intuition discriminate.
+  - split; [wf_explicit|]. split; [simpl; repeat constructor; simpl; intuition discriminate|]. split.
+    + intros a b H. simpl in H. repeat (destruct H as [H|H]; [inversion H; subst; simpl; tauto|]). contradiction.
+    + intros cv H. simpl in H. repeat (destruct H as [H|H]; [subst; simpl; tauto|]). contradiction.
+  - klen_explicit.
+  - klen_explicit.
+  - by_entries.
+  - unfold union_genuine. teq_compute.
+Qed.
+Example C09_equivalence_reverse_step_is_complement_get_terms_nonvacuous :
+  equiv_complement_step [0; 1] eq_kids 1 [tPB] (fun _ => []) 0 =
+  complement_get_terms (du_param_map [[1%nat]; [0%nat]] 2) [] (tab_at [tPB] 0) [].
+Proof.
+  apply (C09_equivalence_reverse_step_is_complement_get_terms [0; 1] eq_kids 1 [tPB] (fun _ => []) 0 1); [reflexivity|].
+  intros a b H. simpl in H. repeat (destruct H as [H|H]; [inversion H; subst; simpl; tauto|]). contradiction.
+Qed.
+Example C09_equivalence_reverse_step_value :
+  equiv_complement_step [0; 1] eq_kids 1 [tPB] (fun _ => []) 0 = Ok [([1; 1], 3); ([5; 7], 2)].
+Proof. vm_compute. reflexivity. Qed.
+
+(* the path X0 -> X1 -> X2 of C09_path_nonvacuous, as the step sees it *)
+Definition ps_s0 : step_desc := (false, [0; 1], [mkKid [10; 11] pa_d1 0 false false], 0%nat).
+Definition ps_s1 : step_desc := (false, [10; 11], [mkKid [20; 21; 22] pa_d2 0 false false], 0%nat).
+Example C09_path_step_nonvacuous :
+  exists r, path_step [ps_s0; ps_s1] [pa_T2] (fun _ => []) 0 = Ok r /\ teq r pa_T0.
+Proof.
+  apply (C09_path_step ps_s0 [ps_s1] pa_steps pa_T0 [pa_T2] (fun _ => []) 0).
+  - repeat constructor; simpl; intuition discriminate.
+  - klen_explicit.
+  - exact pa_chain.
+  - reflexivity.
+  - reflexivity.
+  - reflexivity.
+  - split; [repeat constructor; simpl; intuition discriminate|].
+    split; [repeat constructor; simpl; intuition discriminate|].
+    split; [repeat constructor; simpl; intuition discriminate|].
+    intros a b H. cbn in H. repeat (destruct H as [H|H]; [inversion H; subst; simpl; tauto|]). contradiction.
+  - klen_explicit.
+Qed.
+Example C09_path_step_is_union_get_terms_nonvacuous :
+  path_step [ps_s0; ps_s1] [pa_T2] (fun _ => []) 0 =
+  union_get_terms [du_param_map [[0%nat]; [1%nat]; []] (length [0; 1])] [tab_at [pa_T2] 0].
+Proof.
+  apply (C09_path_step_is_union_get_terms ps_s0 [ps_s1] [pa_d1; pa_d2] [[0%nat]; [1%nat]; []] [pa_T2] (fun _ => []) 0);
+    reflexivity.
+Qed.
+Example C09_path_step_value :
+  path_step [ps_s0; ps_s1] [pa_T2] (fun _ => []) 0 = Ok [([5; 7], 2); ([5; 7], 1); ([1; 1], 3)].
+Proof. vm_compute. reflexivity. Qed.
+
 (* ------------------------------------------------------------ tie to the source (translator)
    The three parameter-map functions of the model ARE the source functions
    Constructor.param_map (base.py), DisjointUnion.param_map (disjoint.py) and
@@ -737,6 +1513,28 @@ Print Assumptions C09_union.
 Print Assumptions C09_product.
 Print Assumptions C09_complement.
 Print Assumptions C09_quotient_parameter_free.
+Print Assumptions C09_exact_quotient_unique.
+Print Assumptions C09_no_zero_divisors.
+Print Assumptions C09_exact_division.
+Print Assumptions C09_exact_division_is_the_quotient.
+Print Assumptions C09_quotient_params.
+Print Assumptions C09_quotient_parent_map_round_trip.
+Print Assumptions C09_union_step_is_union_get_terms.
+Print Assumptions C09_union_step.
+Print Assumptions C09_product_step_is_product_get_terms.
+Print Assumptions C09_product_step.
+Print Assumptions C09_complement_step_is_complement_get_terms.
+Print Assumptions C09_complement_step.
+Print Assumptions C09_quotient_step_is_qstep.
+Print Assumptions C09_quotient_step.
+Print Assumptions C09_quotient_step_parameter_free.
+Print Assumptions C09_equivalence_step.
+Print Assumptions C09_equivalence_reverse_step.
+Print Assumptions C09_equivalence_step_is_union_get_terms.
+Print Assumptions C09_equivalence_reverse_step_is_complement_get_terms.
+Print Assumptions C09_path_step_is_union_get_terms.
+Print Assumptions C09_path_step.
+Print Assumptions C09_levels.
 Print Assumptions C09_equivalence.
 Print Assumptions C09_equivalence_child_index.
 Print Assumptions C09_equivalence_reverse.
